@@ -13,7 +13,7 @@ def run(ctx):
         ctx.tlc_mc(fam, "Semap", "Semap_MC_big.cfg", workers=16, timeout=3000, heap="16g")
     # unbounded design-level safety (extras/ind.md): Semap_Ind restates the design without sequences; TLC
     # checks the refinement Semap -> Semap_Ind (every step, IndInv) and that Semap_Ind reaches no more states;
-    # Apalache proves IndInv inductive for any ratio (thorough tier: base + step take ~7 min)
+    # Apalache proves IndInv inductive for any ratio (thorough tier only: base + step take ~3 min)
     r0 = ctx.mc[0]
     ctx.tlc_mc(fam, "Semap_IndRef", "Semap_IndRef.cfg", workers=4, label="refinement Semap -> Semap_Ind")
     r1 = ctx.tlc_mc(fam, "Semap_Ind", "Semap_Ind_MC.cfg", workers=4, label="Semap_Ind on its own, same constants")
@@ -24,9 +24,10 @@ def run(ctx):
     if ctx.thorough:
         ctx.tlc_mc(fam, "Semap_IndRef", "Semap_IndRef_big.cfg", workers=16, heap="16g",
                    label="refinement Semap -> Semap_Ind, 4 procs 2 keys")
-        ctx.apalache_ind(fam, "Semap_Ind", cinit="CInit", timeout=1500,
-                         label="Semap_Ind: IndInv inductive; ratio symbolic, 3 procs, 2 keys")
-        ctx.apalache_ind(fam, "Semap_Ind", cinit="CInitDev", timeout=900, expect_violation=True,
+        ctx.apalache_ind(fam, "Semap_Ind", next_="NextAtomic", cinit="CInit", timeout=1500,
+                         label="Semap_Ind: IndInv inductive under the four critical sections (cancel, acqc "
+                               "are compositions); ratio symbolic, 3 procs, 2 keys")
+        ctx.apalache_ind(fam, "Semap_Ind", next_="NextAtomic", cinit="CInitDev", timeout=900, expect_violation=True,
                          label="Semap_Ind witness: not inductive under the pinned release rule")
     pdir, plans = ctx.tlc_plans(fam, "Semap_Gen", "Semap_Gen.cfg", num=ctx.q(150, 2500), depth=16)
     binary = ctx.go_build("c01")
